@@ -1,19 +1,19 @@
 #!/bin/bash
 # tools/seedkeep.sh <ID> [tier] : validates /tmp/seed/<ID>/out and, whatever the check says, stores it under /verif/seeded/<ID>/ with meta.json
-id=$1; tier=${2:-quick}; out=/tmp/seed/$id/out
+name=$1; tier=${2:-quick}; id=${name%%-*}; out=/tmp/seed/$name/out
 pkg=$(head -1 $out/demo_test.go | sed -n 's#^// package-dir: *##p' | tr -d ' \r')
 [ -z "$pkg" ] && { echo "no package-dir line in demo"; exit 2; }
-res=$(/verif/tools/seedcheck.sh $id $id $pkg $out/patch.diff $out/demo_test.go $tier 2>&1 | tail -1)
+res=$(/verif/tools/seedcheck.sh $name $id $pkg $out/patch.diff $out/demo_test.go $tier 2>&1 | tail -1)
 echo "$res"
-mkdir -p /verif/seeded/$id
-cp $out/patch.diff $out/demo_test.go /verif/seeded/$id/
-[ -f $out/NOTES.md ] && cp $out/NOTES.md /verif/seeded/$id/NOTES.md
-python3 - "$id" "$res" <<'PY'
+mkdir -p /verif/seeded/$name
+cp $out/patch.diff $out/demo_test.go /verif/seeded/$name/
+[ -f $out/NOTES.md ] && cp $out/NOTES.md /verif/seeded/$name/NOTES.md
+python3 - "$id" "$res" "$name" <<'PY'
 import json,sys
-id,res=sys.argv[1],json.loads(sys.argv[2])
+id,res,name=sys.argv[1],json.loads(sys.argv[2]),sys.argv[3]
 title=[json.loads(l)['title'] for l in open('/verif/properties.jsonl') if json.loads(l)['id']==id][0]
 notes=''
-try: notes=open('/verif/seeded/%s/NOTES.md'%id).read()
+try: notes=open('/verif/seeded/%s/NOTES.md'%name).read()
 except: pass
 meta={"property":id,"property_title":title,"author":"independent sub-agent given only the property text and a scratch worktree",
  "needs_to_manifest":notes[:1500],
@@ -22,5 +22,5 @@ meta={"property":id,"property_title":title,"author":"independent sub-agent given
  "what_was_run":"tools/seedcheck.sh: demo on clean worktree; git apply patch; go test ./%s/; demo with patch; VERIF_REPO=<scratch> ./check %s %s"%(res["pkg"],id,[k for k in res if k.startswith('check_')][0][6:]),
  "check_result":{k:v for k,v in res.items() if k.startswith('check_')}, "signatures":res["signatures"],
  "caught": any(v=="exit1" for k,v in res.items() if k.startswith('check_'))}
-json.dump(meta,open('/verif/seeded/%s/meta.json'%id,'w'),indent=1)
+json.dump(meta,open('/verif/seeded/%s/meta.json'%name,'w'),indent=1)
 PY
